@@ -81,8 +81,8 @@ PROFILE = gf.make_profile(
            "exitcycle": 1},
     helpers=(0, 2), nstmts=(2, 5), twin_loops=10, perfect_nest=20)
 
-CATEGORIES = ["file", "container", "routine", "routine", "routine", "loop",
-              "loop", "if", "body", "body", "scoped_body", "directive",
+CATEGORIES = ["routine", "container", "routine", "loop", "body", "directive",
+              "routine", "if", "scoped_body", "file", "loop", "body",
               "directive", "stmt", "any", "any"]
 PREPS = ["omp_parallel_do", "omp_do_parallel", "acc_kernels",
          "acc_loop_parallel", "acc_data", "omp_target", "inner_sym",
@@ -220,7 +220,8 @@ def apply_prep(root, name, idx):
                 return "refused:no_schedule"
             sched = scheds[idx % len(scheds)]
             if name == "inner_shadow":
-                outer = [s for s in sched.parent.scope.symbol_table.symbols
+                visible = sched.parent.scope.symbol_table.get_symbols()
+                outer = [s for s in visible.values()
                          if isinstance(s, DataSymbol) and s.is_automatic
                          and s.is_scalar]
                 if not outer:
@@ -343,6 +344,19 @@ def inside_symbols(tree, pred):
 def below(tree, cls):
     """Nodes of the given class strictly below the root of `tree`."""
     return [x for x in tree.walk(cls) if x is not tree]
+
+
+def first_valid(trans, cands, start, options=None):
+    """The first candidate (cyclically from `start`) that the
+    transformation's validate() accepts, else the one at `start`."""
+    for shift in range(len(cands)):
+        cand = cands[(start + shift) % len(cands)]
+        try:
+            trans.validate(cand, options)
+            return cand
+        except Exception:       # pylint: disable=broad-except
+            continue
+    return cands[start % len(cands)]
 
 
 def apply_edit(tree, num, kind, pa, pb):
@@ -469,15 +483,16 @@ def apply_edit(tree, num, kind, pa, pb):
             loops = tree.walk(Loop)
             if not loops:
                 return "none", info
-            ChunkLoopTrans().apply(loops[pa % len(loops)],
-                                   {"chunksize": 2 + pb % 6})
+            opts = {"chunksize": 2 + pb % 6}
+            loop = first_valid(ChunkLoopTrans(), loops, pa, opts)
+            ChunkLoopTrans().apply(loop, opts)
         elif kind == "hoist":
             cands = [a for a in below(tree, Assignment)
                      if isinstance(a.parent, Schedule)
                      and isinstance(a.parent.parent, Loop)]
             if not cands:
                 return "none", info
-            HoistTrans().apply(cands[pa % len(cands)])
+            HoistTrans().apply(first_valid(HoistTrans(), cands, pa))
         else:
             raise HarnessError(f"unknown edit {kind}")
         # keep pylint quiet about unused imports used only in predicates
